@@ -789,6 +789,12 @@ class Analyzer:
 
     # --- lengths of arrays / fixed-capacity vectors / slices, Ok-ness of Result/Option values
     def len_of_place(self, f, st, p):
+        # element of a local array of slices / vectors: the summary recorded when the array was built
+        if p["proj"] and p["proj"][-1]["k"] in ("index", "constindex") and len(p["proj"]) == 1 and p["local"] not in self._mut_borrowed:
+            v = st.v.get((p["local"], ("#elem", "#len")))
+            if v is not None:
+                d0 = type_len(p["ty"])
+                return (meet(v, d0) or v) if d0 is not None else v
         key = place_key(p, f.locals)
         if key is None and p["proj"] and p["proj"][0]["k"] == "deref" and all(e["k"] in ("deref", "field", "downcast") for e in p["proj"]):
             # through a `&mut`: lengths are maintained explicitly by the call effects (see set_len / len_safe)
@@ -925,6 +931,10 @@ class Analyzer:
                     arr = const_int_array(o)
                     if arr is not None and not dkey[1]:
                         st.arr[dkey[0]] = arr
+                    # an element read `arr[i]` of an array of slices: its recorded element length
+                    ln1 = self.len_of_operand(f, st, o) if o["k"] != "const" else None
+                    if ln1 is not None and ty_range({"s": place["ty"]}) is None:
+                        self.set_len(st, dkey, ln1)
                     # reading a field-value-set struct through a pointer needs no copy: field sets are global
                 return
             iv = self.op_iv(f, st, o)
@@ -1045,7 +1055,13 @@ class Analyzer:
                         if ln is not None and ty_range(self._op_ty(f, o)) is None:
                             st.v[(dkey[0], dkey[1] + (fname, "#len"))] = ln
             elif rv["agg"] == "array":
-                pass
+                # `[a, b]` of slices / byte vectors: remember the join of the element lengths
+                lens = [self.len_of_operand(f, st, o) for o in rv["ops"]]
+                if lens and all(x is not None for x in lens) and dkey[0] not in self._mut_borrowed and not dkey[1]:
+                    j = lens[0]
+                    for x in lens[1:]:
+                        j = join(j, x)
+                    st.v[(dkey[0], ("#elem", "#len"))] = j
             return
         if k == "discr":
             st.kill(dkey)
